@@ -47,6 +47,8 @@ pub struct BVariant {
 pub enum BBody {
     Composite(Shape, Vec<BField>),
     Variant(Vec<BVariant>),
+    /// `TypeDefTuple::new(vec![meta_type::<..>(), ..]).into()` (compile-time form only)
+    Tuple(Vec<TE>),
 }
 
 #[derive(Clone, Debug, Serialize, Deserialize, Hash, PartialEq, Eq)]
@@ -132,7 +134,7 @@ fn fields_chain(shape: Shape, fs: &[BField], portable: bool, docs_feature: bool,
 
 impl BType {
     pub fn source(&self, docs_feature: bool) -> String {
-        let c = crate::ast::PCtx { defs: &[], self_name: None, self_params: vec![], lifetime: "'static", self_has_lifetime: false, spaced: false };
+        let c = crate::ast::PCtx { defs: &[], self_name: None, self_params: vec![], lifetime: "'static", self_has_lifetime: false, qualified: false, spaced: false };
         let p = self.portable;
         let mut s = crate::ast::PRELUDE.replace("BITVEC_USE", "pub use bitvec::{order::{Lsb0, Msb0}, vec::BitVec};");
         s.push_str("use scale_info::{build::*, form::{MetaForm, PortableForm}, Path, Type, TypeParameter};\nfn main() {\n");
@@ -163,7 +165,16 @@ impl BType {
         }
         let order = perm(calls.len(), self.order / 2);
         let head: String = order.iter().map(|i| calls[*i].clone()).collect();
+        if let BBody::Tuple(elems) = &self.body {
+            let metas: Vec<String> = elems.iter().map(|t| format!("meta_type::<{}>()", t.rust(&c))).collect();
+            s.push_str(&format!("    let t: Type<MetaForm> = scale_info::TypeDefTuple::new(vec![{}]).into();\n", metas.join(", ")));
+            s.push_str("    println!(\"INFO 0 {}\", vsupport::dump_type(&t));\n");
+            let want: Vec<String> = elems.iter().filter(|t| !t.is_phantom()).map(|t| format!("meta_type::<{}>()", t.rust(&c))).collect();
+            s.push_str(&format!("    let want_m: Vec<MetaType> = vec![{}];\n    println!(\"MEMBERS 0 {{}}\", vsupport::member_types(&t) == want_m);\n    println!(\"PARAMS 0 true\");\n}}\n", want.join(", ")));
+            return s;
+        }
         let tail = match &self.body {
+            BBody::Tuple(_) => unreachable!(),
             BBody::Composite(shape, fs) => format!(".composite({})", fields_chain(*shape, fs, p, docs_feature, &c)),
             BBody::Variant(vs) => {
                 let mut v = "Variants::new()".to_string();
@@ -210,6 +221,7 @@ impl BType {
 
     fn all_fields(&self) -> Vec<(&BField, Shape)> {
         match &self.body {
+            BBody::Tuple(_) => vec![],
             BBody::Composite(sh, fs) => {
                 if *sh == Shape::Unit {
                     vec![]
@@ -286,6 +298,7 @@ pub fn builder_body(t: &BType, obs: &mut Obs, docs_feature: bool) -> Result<(), 
             path: t.path.clone(),
             params: t.params.clone().unwrap_or_default().into_iter().map(|(n, _, id)| MParam { name: n, ty: id }).collect(),
             def: match &t.body {
+                BBody::Tuple(_) => MDef::Tuple(vec![]),
                 BBody::Composite(sh, fs) => MDef::Composite(if *sh == Shape::Unit { vec![] } else { fs.iter().map(|f| mf(f, *sh)).collect() }),
                 BBody::Variant(vs) => MDef::Variant(
                     vs.iter()
@@ -309,15 +322,17 @@ pub fn builder_body(t: &BType, obs: &mut Obs, docs_feature: bool) -> Result<(), 
     } else {
         let info: Value = run.stdout.lines().find_map(|l| l.strip_prefix("INFO 0 ")).and_then(|l| serde_json::from_str(l).ok()).ok_or("harness: no INFO line")?;
         let strs = |v: &Value| -> Vec<String> { v.as_array().map(|a| a.iter().map(|x| x.as_str().unwrap_or("").to_string()).collect()).unwrap_or_default() };
-        if strs(&info["path"]) != t.path {
+        let is_tuple = matches!(&t.body, BBody::Tuple(_));
+        // (a tuple definition has no path, parameters or docs of its own: only its elements are supplied)
+        if !is_tuple && strs(&info["path"]) != t.path {
             return Err(format!("[sig:builder-lossy] path {:?}, supplied {:?}", strs(&info["path"]), t.path));
         }
         let want_params: Vec<(String, bool)> = t.params.clone().unwrap_or_default().iter().map(|(n, ty, _)| (n.clone(), ty.is_some())).collect();
         let got_params: Vec<(String, bool)> = info["params"].as_array().map(|a| a.iter().map(|x| (x[0].as_str().unwrap_or("").to_string(), x[1].as_bool().unwrap_or(false))).collect()).unwrap_or_default();
-        if got_params != want_params {
+        if !is_tuple && got_params != want_params {
             return Err(format!("[sig:builder-lossy] type parameters {:?}, supplied {:?}", got_params, want_params));
         }
-        if strs(&info["docs"]) != kept_docs(&t.docs, p, docs_feature) {
+        if !is_tuple && strs(&info["docs"]) != kept_docs(&t.docs, p, docs_feature) {
             return Err(format!("[sig:builder-docs] type docs {:?}, supplied {:?} (docs feature {docs_feature})", strs(&info["docs"]), t.docs));
         }
         let cmp = |got: &Value, fs: Vec<(&BField, Shape)>, what: &str| -> Result<(), String> {
@@ -338,6 +353,12 @@ pub fn builder_body(t: &BType, obs: &mut Obs, docs_feature: bool) -> Result<(), 
             Ok(())
         };
         match &t.body {
+            BBody::Tuple(elems) => {
+                let want = elems.iter().filter(|e| !e.is_phantom()).count() as u64;
+                if info["kind"] != "tuple" || info["arity"].as_u64() != Some(want) {
+                    return Err(format!("[sig:builder-members] TypeDefTuple::new: described as {info}, {} elements supplied of which {want} are not PhantomData", elems.len()));
+                }
+            }
             BBody::Composite(sh, fs) => {
                 if info["kind"] != "composite" {
                     return Err("[sig:builder-lossy] not a composite".into());
@@ -372,8 +393,21 @@ pub fn builder_body(t: &BType, obs: &mut Obs, docs_feature: bool) -> Result<(), 
     }
     let n_members = t.all_fields().len() + match &t.body {
         BBody::Variant(vs) => vs.len(),
+        BBody::Tuple(es) => es.len(),
         _ => 0,
     };
+    if let BBody::Tuple(es) = &t.body {
+        obs.class("body/tuple");
+        if es.iter().any(|e| e.is_phantom()) {
+            obs.class("tuple/phantom_element_supplied");
+            if es.iter().position(|e| e.is_phantom()).map_or(false, |i| es[i + 1..].iter().any(|e| !e.is_phantom())) {
+                obs.class("tuple/phantom_before_real_element");
+            }
+        }
+        if n_members >= 2 {
+            obs.nontrivial(&(t, docs_feature));
+        }
+    }
     let optional_set = t.docs.is_some() || t.params.is_some() || t.all_fields().iter().any(|(f, _)| f.type_name.is_some() || f.docs.is_some());
     if n_members >= 2 && optional_set {
         obs.nontrivial(&(t, docs_feature));
@@ -436,10 +470,25 @@ fn shape() -> impl Strategy<Value = Shape> {
 pub fn btype(portable: bool) -> BoxedStrategy<BType> {
     let variant = (ident(), any::<u8>(), shape(), vec(bfield(), 0..4), bdocs(), prop::option::weighted(0.2, any::<u64>()), prop::bool::weighted(0.3), any::<u8>())
         .prop_map(|(name, index, shape, fields, docs, discriminant, unit_ctor, order)| BVariant { name, index, shape, fields, docs, discriminant, unit_ctor, order });
-    let body = prop_oneof![
-        1 => (shape(), vec(bfield(), 0..5)).prop_map(|(s, f)| BBody::Composite(s, f)),
-        1 => vec(variant, 0..5).prop_map(BBody::Variant),
+    let elem = prop_oneof![
+        3 => gen::te(1, false, true, vec![]),
+        2 => gen::te(1, false, false, vec![]).prop_map(|t| TE::Phantom(Box::new(t))),
+        1 => Just(TE::Rc(Box::new(TE::Phantom(Box::new(TE::String))))),
     ];
+    let body = if portable {
+        prop_oneof![
+            1 => (shape(), vec(bfield(), 0..5)).prop_map(|(s, f)| BBody::Composite(s, f)),
+            1 => vec(variant, 0..5).prop_map(BBody::Variant),
+        ]
+        .boxed()
+    } else {
+        prop_oneof![
+            3 => (shape(), vec(bfield(), 0..5)).prop_map(|(s, f)| BBody::Composite(s, f)),
+            3 => vec(variant, 0..5).prop_map(BBody::Variant),
+            2 => vec(elem, 0..6).prop_map(BBody::Tuple),
+        ]
+        .boxed()
+    };
     let params = prop::option::weighted(0.5, vec((ident(), prop::option::weighted(0.7, gen::te(1, false, true, vec![])), prop::option::weighted(0.7, vcore::genreg::id_wild())), 0..3));
     (vec(ident(), 1..4), params, bdocs(), body, any::<u8>())
         .prop_map(move |(path, params, docs, body, order)| {
